@@ -27,6 +27,10 @@ type Gen struct {
 	n        int
 	current  atomic.Value // string: the case being executed (for the watchdog)
 	started  int64        // unix nano of the current case start
+	Sync     bool // announce every case on stderr before running it, flush after (crash diagnosis)
+	sample   [][2]string // reservoir of (op, args) re-executed in shuffled order at the end
+	seen     int
+	noSample bool
 	Stats    map[string]int
 	Exhaust  []string // names of finite sub-domains enumerated completely
 }
@@ -52,6 +56,9 @@ func (g *Gen) Stat(bucket string) { g.Stats[bucket]++ }
 func (g *Gen) Case(op, args, key string, f func() string) {
 	g.current.Store(op + "\t" + args)
 	atomic.StoreInt64(&g.started, time.Now().UnixNano())
+	if g.Sync {
+		fmt.Fprintf(os.Stderr, "PENDING\t%s\t%s\n", op, args)
+	}
 	obs := try(f)
 	atomic.StoreInt64(&g.started, 0)
 	g.out.WriteString(op)
@@ -63,6 +70,25 @@ func (g *Gen) Case(op, args, key string, f func() string) {
 	g.out.WriteString(key)
 	g.out.WriteByte('\n')
 	g.n++
+	if g.Sync {
+		g.out.Flush()
+	}
+}
+
+// rerunSample re-executes a reservoir sample of the cases of this run in shuffled order, as ordinary
+// case lines: a function whose result depends on hidden state left behind by earlier calls (a cache,
+// a scratch buffer, a memo table) gives a different - wrong - answer the second time round.
+func (g *Gen) rerunSample() {
+	g.noSample = true
+	s := g.sample
+	for i := len(s) - 1; i > 0; i-- {
+		j := g.R.Intn(i + 1)
+		s[i], s[j] = s[j], s[i]
+	}
+	for _, c := range s {
+		g.Do(c[0], c[1], "")
+	}
+	g.Stats["rerun-shuffled"] = len(s)
 }
 
 func try(f func() string) (r string) {
@@ -94,6 +120,7 @@ func main() {
 	outp := flag.String("out", "", "output file (default stdout)")
 	corpus := flag.String("corpus", "", "corpus file: op \\t args lines replayed first")
 	replay := flag.String("replay", "", "run one case: op \\t args")
+	syncf := flag.Bool("sync", false, "announce each case on stderr before running it")
 	flag.Parse()
 
 	w := os.Stdout
@@ -106,7 +133,7 @@ func main() {
 		defer f.Close()
 		w = f
 	}
-	g := &Gen{Prop: *prop, Thorough: *tier == "thorough", out: bufio.NewWriterSize(w, 1<<20), Stats: map[string]int{}}
+	g := &Gen{Prop: *prop, Thorough: *tier == "thorough", out: bufio.NewWriterSize(w, 1<<20), Stats: map[string]int{}, Sync: *syncf}
 	// one PRNG state per (seed, property): a disagreement replays exactly
 	h := uint64(1469598103934665603)
 	for _, c := range []byte(*prop) {
@@ -136,6 +163,7 @@ func main() {
 		g.Stats["corpus"] = g.n
 	}
 	f(g)
+	g.rerunSample()
 	g.out.Flush()
 	// summary on stderr: STAT lines
 	keys := make([]string, 0, len(g.Stats))
